@@ -296,6 +296,11 @@ fn jobs_for(prop: &str, thorough: bool) -> Vec<Job> {
             jobs.push(Job { engine: "geometry", build: "", asan: true, workers: 16, cases: 0, timeout_s: 1800 });
         }
     }
+    if matches!(prop, "C04" | "C07") {
+        // state that survives a caught panic (C16's crash points, judged for what
+        // lookups and traversals show afterwards)
+        jobs.push(Job { engine: "panic", build: "", asan: false, workers: 16, cases: if thorough { 600 } else { 40 }, timeout_s: if thorough { 5400 } else { 900 } });
+    }
     if matches!(prop, "C02" | "C03" | "C04" | "C06" | "C07" | "C10" | "C11" | "C12" | "C13" | "C14" | "C15" | "C17") {
         // every crash point inside a destructor the victim operation runs
         jobs.push(Job { engine: "panic-drop", build: "", asan: false, workers: 16, cases: if thorough { 600 } else { 60 }, timeout_s: if thorough { 5400 } else { 900 } });
@@ -306,6 +311,11 @@ fn jobs_for(prop: &str, thorough: bool) -> Vec<Job> {
     if matches!(prop, "C02" | "C04" | "C05" | "C06" | "C07" | "C12" | "C13" | "C14" | "C15" | "C19" | "C20") {
         // more than 2^16 entries: one script per worker in the quick tier
         jobs.push(Job { engine: "huge", build: "", asan: false, workers: 16, cases: if thorough { 12 } else { 1 }, timeout_s: 3600 });
+    }
+    if thorough && matches!(prop, "C02" | "C04" | "C07") {
+        // the same exploration in the release profile (no overflow checks, no debug
+        // assertions, full optimisation): behaviour that differs by build profile
+        jobs.push(Job { engine: "cache", build: "release", asan: false, workers: 16, cases: 8000, timeout_s: 3600 });
     }
     if matches!(prop, "C01" | "C02" | "C10" | "C11") {
         // std value types measured by the crate's own estimates
